@@ -289,23 +289,26 @@ def search(rng, bad):
 ENABLED = True
 LEVEL = "proof"
 PARTIAL = ["C05_partial", "C05_size_partial", "C05_bool_refuted", "C05_tail_padding_refuted", "C05_empty_offsets_refuted",
-           "C05_dict_key_width_refuted", "C05_full_refuted", "C04_gv_nopanic_partial", "C04_gv_struct_offset_underflow_refuted",
-           "C04_gv_variant_offset_underflow_refuted", "C02_gv_roundtrip", "C02_gv_empty_offsets_refuted",
-           "C02_gv_dict_key_width_refuted"]
+           "C05_full_refuted", "C04_gv_nopanic_partial", "C04_gv_panic_classes", "C02_gv_roundtrip", "C02_gv_empty_offsets_refuted"]
 LEVEL_TEXT = ("Theorems over C05/Model.v (a mirror of zvariant's GVariant serializer as a function of the serde event tree, basics delegated "
               "to the D-Bus serializer model as in the Rust) against C05/Spec.v (`gv_marshal`, written from the GVariant specification, sharing "
               "nothing with the model): for every byte order, start offset and well-formed value within the nesting limits whose nodes avoid "
-              "four decidable known classes, the model produces exactly the format's bytes and the size pass their length (C05_partial); the "
-              "full statement is refuted with one witness per class (bool, tail_padding, empty_offsets, dict_key_width); for all n, k "
+              "three decidable known classes, the model produces exactly the format's bytes and the size pass their length (C05_partial); the "
+              "full statement is refuted with one witness per class (bool, tail_padding, empty_offsets; the former class dict_key_width is "
+              "repaired by c613b0b9 and its witness now an Example of correct bytes); for all n, k "
               "for_bare_container returns the least admissible offset width (offset_width_spec). GVariant halves of other properties: the "
               "serializer fails with a depth error exactly beyond 32/32/64 (C07_gv_ser); the deserializer model (every slice/index/subtraction/"
-              "unwrap an explicit Panic) panics, for all inputs, only in the signature parser's recursion (> 50000 bytes) or in the tuple "
-              "framing-offset read (>= 256 bytes) (C04_gv_panic_classes), never below 256 bytes, never with the proposed checked read. "
+              "unwrap an explicit Panic) panics, for all inputs and any fuel, only in the signature parser's recursion, and then the input "
+              "has more than 50000 bytes (C04_gv_panic_classes, C04_gv_step); never on inputs up to 50000 bytes (C04_gv_nopanic_partial). The "
+              "tuple framing-offset read (former class struct_offset_underflow) is checked since b5246470: the former witnesses, direct and "
+              "through a variant, are Examples returning OutOfBounds, and C04_gv_before_fix_classes records what the old reader allowed. "
               "Round trip (C02_gv_roundtrip): for every such value (all types, dicts included) the deserializer model returns the value from "
               "the serializer model's output and consumes exactly its length. Both models are tied to /repo by differential runs of the real zvariant (debug and release) with the spec oracle on its output.")
 LEVEL_NOTE = ("Partial. Proved: C05 outside Known_C05 (values without fds, < 2^60 bytes), offset widths, C07 encoder side, C04 panic classes for "
               "the decoder model, C02 round trip (value with its own signature). Covered by the differential correspondence and oracle only, not "
               "by a theorem: the round trip through the Value / typed entry points, the decoder side of C07, re-encoding of decoded values, fds, typed Rust values (same serde call tree as the dynamic value by "
               "assumption), enum variants / serde_bytes (not modelled), the exact stack bound of the signature parser, non-exhaustion of the "
-              "decoder's fuel. Six known findings: bool, tail_padding, empty_offsets, dict_key_width (C05/C02), struct_offset_underflow, "
-              "sig_parse_stack (C04). Trusted: Coq kernel, extraction, the hand-written models, harness hgv.")
+              "decoder's fuel. Four known findings remain: bool, tail_padding, empty_offsets (C05; empty_offsets also breaks the C02 round "
+              "trip), sig_parse_stack (C04: stack exhaustion in signature parsing on a > 50000-byte type string inside a variant). Two are "
+              "fixed upstream and gone from the models: dict_key_width (c613b0b9) and struct_offset_underflow (b5246470); the reverse "
+              "patches seeded/selftest/C05/unfix_*.diff make the check fail again. Trusted: Coq kernel, extraction, the hand-written models, harness hgv.")
